@@ -248,7 +248,7 @@ fn directed_modes(masks: &[u32]) -> Vec<u32> {
 
 /// Negated checks for every mask, and every ordered pair of checks over 12 masks under each
 /// operator (with a test in between, negated, parenthesised).
-fn combined_checks() -> Acc {
+fn combined_checks(thorough: bool) -> Acc {
     let kinds = [PermKind::Equal, PermKind::AtLeast, PermKind::Any];
     let mut acc = par_cases(4096 * 3, |i, acc| {
         let bits = (i / 3) as u32;
@@ -261,7 +261,10 @@ fn combined_checks() -> Acc {
             check_tree_policy(&Expr::not(Expr::prec(p)), &modes, "negated", acc);
         }
     });
-    let masks = [0u32, 0o002, 0o222, 0o200, 0o700, 0o070, 0o007, 0o111, 0o100, 0o777, 0o4000, 0o644];
+    let mut masks = vec![0u32, 0o002, 0o222, 0o200, 0o700, 0o070, 0o007, 0o111, 0o100, 0o777, 0o4000, 0o644];
+    if thorough {
+        masks.extend([0o001, 0o004, 0o020, 0o040, 0o400, 0o600, 0o060, 0o006, 0o755, 0o750, 0o440, 0o1000, 0o2000, 0o6000, 0o7000, 0o7777, 0o3, 0o5, 0o33, 0o55, 0o330, 0o550, 0o660, 0o666, 0o444, 0o711, 0o1777, 0o2755]);
+    }
     let leaves: Vec<Expr> = masks.iter().flat_map(|m| kinds.iter().map(move |k| Expr::Test(Test::Perm(*k, *m)))).collect();
     let n = leaves.len() as u64;
     acc = acc.merge(par_cases(n * n, |i, acc| {
@@ -292,7 +295,7 @@ fn combined_checks() -> Acc {
 pub fn run(ctx: &Ctx) -> i32 {
     let cl = clauses();
     let mut acc = Acc::new();
-    acc = acc.merge(combined_checks());
+    acc = acc.merge(combined_checks(ctx.tier == Tier::Thorough));
     // octal: all 4096 values in every admissible spelling x 3 prefixes
     acc = acc.merge(par_cases(4096 * 3, |i, acc| {
         let v = (i / 3) as u32;
